@@ -242,6 +242,7 @@ def r4(rr, repo):
     mod, fn, paths = fn_paths(repo, 'read')
     rr.paths += len(paths)
     n = m = 0
+    steps = []      # (is the read file None after the refresh?, stored index expression, node) of every advance that follows a refresh
     for p in paths:
         for e in p.events:
             if e.kind == 'store' and e.term == 'self.read_idx':
@@ -255,9 +256,8 @@ def r4(rr, repo):
                 if refreshed and not vanished_:
                     # the refresh either kept the reader on its (exhausted) file - go one past it - or, the file being gone, already moved it to the first newer
                     # file - continue THERE: the step after a refresh has to depend on which of the two happened
-                    ok = 'self.read_file' in e.args[0] or any('self.read_file' in k for k, v in p.pc[refreshed[-1].pc_len:e.pc_len])
-                    rr.ob('after a refresh the reader goes one past its file only if the refresh kept that file; if the refresh moved it (file deleted) it continues with the file it was moved to',
-                          ok, mod, e.node, witness=e.args[0], key='advance-after-refresh')
+                    kept_atom = [v for k, v in p.pc[refreshed[-1].pc_len:e.pc_len] if k == 'isnone(self.read_file)']
+                    steps.append((kept_atom[-1] if kept_atom else None, e.args[0], e.node))
                     # ... and a file the refresh kept is read once more before it is left: the writer may have appended its last record and rolled over between
                     # the empty read and the rescan; once the rescan shows a newer file this one is complete, so one more read settles it
                     after_ref = before[before.index(refreshed[-1]):]
@@ -276,6 +276,15 @@ def r4(rr, repo):
             closes = [e for e in p.events if e.kind == 'call' and e.term.endswith('.close')]
             nulls = [e for e in p.events if e.kind == 'store' and e.term == 'self.read_file' and e.args[0] == 'None']
             rr.ob('moving past an exhausted file closes it and forgets the handle', bool(closes) and bool(nulls), mod, adv[0].node, witness=p.pc_text()[-160:], key='close-exhausted')
+    # after a refresh the step has to depend on what the refresh did: the stored expression itself mentions the read file (`+ (self.read_file is not None)`), or the
+    # paths on which the refresh kept the file store a different step than those on which it dropped it. A test of self.read_file somewhere in between is not enough.
+    if steps:
+        in_expr = all('self.read_file' in ex for _, ex, _ in steps)
+        kept = {ex for a, ex, _ in steps if a is False}
+        gone = {ex for a, ex, _ in steps if a is True}
+        by_branch = bool(kept) and bool(gone) and not (kept & gone) and not any(a is None for a, _, _ in steps)
+        rr.ob('after a refresh the reader goes one past its file only if the refresh kept that file; if the refresh moved it (file deleted) it continues with the file it was moved to',
+              in_expr or by_branch, mod, steps[0][2], witness='; '.join(sorted({f"{ex} [file kept: {('?' if a is None else not a)}]" for a, ex, _ in steps}))[:300], key='advance-after-refresh')
     rr.floor('index advances in read()', n, 2, mod, fn)
     rr.floor('opens in read()', m, 1, mod, fn)
 
